@@ -97,8 +97,9 @@ func (n *verifRaftNode) DebugString() string                     { return "" }
 // recording transport. Nothing consumes the apply queue while it runs, so every recorded step
 // knows whether the committed entries had been published before it. The Ready must not carry a
 // snapshot, and (unless it makes the node leader) no configuration change among its committed
-// entries: processReady would wait for the apply loop.
-func VerifProcessReady(rd raft.Ready) []VerifReadyEvent {
+// entries: processReady would wait for the apply loop. stable are the entries the replica's log
+// storage already holds (the Ready's new entries must connect to them).
+func VerifProcessReady(rd raft.Ready, stable []raftpb.Entry) []VerifReadyEvent {
 	commitC := make(chan applyInfo, 4)
 	tl := &verifTimeline{commitC: commitC}
 	stop := make(chan struct{})
@@ -114,6 +115,9 @@ func VerifProcessReady(rd raft.Ready) []VerifReadyEvent {
 		newLeaderChan:  make(chan string, 8),
 		msgSnapC:       make(chan raftpb.Message, 8),
 		readStateC:     make(chan raft.ReadState, 8),
+	}
+	if len(stable) > 0 {
+		rc.raftStorage.Append(stable)
 	}
 	rc.processReady(rd)
 	close(stop)
